@@ -56,6 +56,47 @@ pub unsafe extern "C" fn getrandom(buf: *mut u8, len: usize, _flags: u32) -> isi
 /// Marker payload used to unwind out of a run whose expansion budget is exhausted.
 pub struct BudgetExceeded;
 
+// ---- memory budget ------------------------------------------------------------------------
+// Allocation failure aborts the whole process instead of unwinding, so a program that allocates
+// without bound (a recursive macro in scroll mode logs an ever deeper stack trace per level) must
+// be cut before it gets there. A counting allocator keeps the net bytes allocated by the current
+// thread; the step-budget hooks consult it and unwind with `BudgetExceeded`.
+
+pub struct CountingAlloc;
+
+thread_local! {
+    static NET_BYTES: Cell<i64> = const { Cell::new(0) };
+}
+
+unsafe impl std::alloc::GlobalAlloc for CountingAlloc {
+    unsafe fn alloc(&self, layout: std::alloc::Layout) -> *mut u8 {
+        let _ = NET_BYTES.try_with(|n| n.set(n.get() + layout.size() as i64));
+        std::alloc::System.alloc(layout)
+    }
+    unsafe fn dealloc(&self, ptr: *mut u8, layout: std::alloc::Layout) {
+        let _ = NET_BYTES.try_with(|n| n.set(n.get() - layout.size() as i64));
+        std::alloc::System.dealloc(ptr, layout)
+    }
+    unsafe fn realloc(&self, ptr: *mut u8, layout: std::alloc::Layout, new_size: usize) -> *mut u8 {
+        let _ = NET_BYTES.try_with(|n| n.set(n.get() + new_size as i64 - layout.size() as i64));
+        std::alloc::System.realloc(ptr, layout, new_size)
+    }
+}
+
+/// Net bytes the current simulated process may hold before its run is cut as "budget".
+pub const MEMORY_BUDGET_BYTES: i64 = 1 << 30;
+
+pub fn over_memory_budget() -> bool {
+    NET_BYTES.try_with(|n| n.get() > MEMORY_BUDGET_BYTES).unwrap_or(false)
+}
+
+/// Unwind with the budget marker if the current thread holds more memory than the budget.
+pub fn check_memory_budget() {
+    if over_memory_budget() {
+        std::panic::resume_unwind(Box::new(BudgetExceeded));
+    }
+}
+
 /// Install the panic hook (once, at start-up): record location and message per thread, print nothing.
 pub fn install_panic_hook() {
     panic::set_hook(Box::new(|info| {
